@@ -1036,11 +1036,14 @@ def main():
     only = set(sys.argv[1:])
     steps = [("tables", lambda: gen_safe(facts, gen_exports_and_macros(facts))),
              ("dispatch", lambda: gen_dispatch(facts))]
-    try:
-        import translate_more
-        steps += translate_more.steps(facts, write_if_changed, GEN, REPO)
-    except ImportError:
-        pass
+    import importlib
+    for modname in ("translate_more", "translate_feat", "translate_crate", "translate_utils"):
+        try:
+            mod = importlib.import_module(modname)
+        except ImportError:
+            continue
+        if hasattr(mod, "steps"):
+            steps += mod.steps(facts, write_if_changed, GEN, REPO)
     for name, fn in steps:
         if only and name not in only:
             continue
